@@ -21,21 +21,41 @@ fn check_dag(ont: &Ontology, r: &RefOnt) -> V {
 
 /// all ordered pairs over `ids` (a subset of the terms for very large shapes)
 fn check_dag_ids(ont: &Ontology, r: &RefOnt, ids: &[u32]) -> V {
+    check_dag_sel(ont, r, ids, true)
+}
+
+/// `term_to_term = false`: only the to-ancestor queries (the library's term-to-term distance costs
+/// |common ancestors| x depth per pair, prohibitive on chains of thousands of terms)
+fn check_dag_sel(ont: &Ontology, r: &RefOnt, ids: &[u32], term_to_term: bool) -> V {
     let ids: Vec<u32> = ids.to_vec();
     let up: BTreeMap<u32, BTreeMap<u32, usize>> = ids.iter().map(|i| (*i, r.up_distances(*i))).collect();
     let v = |site: &str, sig: &str, det: String| Some((site.to_string(), sig.to_string(), det));
-    for &a in &ids {
-        for &b in &ids {
+    for (ia, &a) in ids.iter().enumerate() {
+        for (ib, &b) in ids.iter().enumerate() {
             let (ta, tb) = (ont.hpo(a).unwrap(), ont.hpo(b).unwrap());
-            // --- to ancestor
+            // on every other pair the PATH queries are asked first (a query must not depend on which query was
+            // asked before); their answers are kept and compared with the ones obtained in the usual order
+            let early = if (ia + ib) % 2 == 1 {
+                Some((ta.path_to_ancestor(&tb).map(|p| p.iter().map(|x| x.as_u32()).collect::<Vec<u32>>()), if a != b && term_to_term { ta.path_to_term(&tb).map(|p| p.iter().map(|x| x.as_u32()).collect::<Vec<u32>>()) } else { None }))
+            } else {
+                None
+            };
+            // --- to ancestor (a term is not its own ancestor: what the two functions answer for (t, t) is not
+            // fixed by the property - Some(0) / Some([]) and None are both accepted)
             let want_anc = up[&a].get(&b).copied();
             let got = ta.distance_to_ancestor(&tb);
-            if got != want_anc {
+            if got != want_anc && !(a == b && got.is_none()) {
                 return v("HpoTerm::distance_to_ancestor", "not the length of a shortest chain of parent links", format!("{a}.distance_to_ancestor({b}) = {got:?} expected {want_anc:?}"));
             }
             let path = ta.path_to_ancestor(&tb).map(|p| p.iter().map(|x| x.as_u32()).collect::<Vec<u32>>());
+            if let Some((ep, _)) = &early {
+                if *ep != path {
+                    return v("HpoTerm::path_to_ancestor", "answer depends on which queries were asked before", format!("{a}.path_to_ancestor({b}): asked first {ep:?}, asked after distance_to_ancestor {path:?}"));
+                }
+            }
             match (&path, want_anc) {
                 (None, None) => {}
+                (None, Some(0)) if a == b => {}
                 (Some(p), Some(d)) => {
                     if p.len() != d {
                         return v("HpoTerm::path_to_ancestor", "path is not of minimal length", format!("{a}.path_to_ancestor({b}) = {p:?} but the shortest chain has {d} links"));
@@ -53,6 +73,9 @@ fn check_dag_ids(ont: &Ontology, r: &RefOnt, ids: &[u32]) -> V {
                 }
                 (p, w) => return v("HpoTerm::path_to_ancestor", "present/absent for the wrong terms", format!("{a}.path_to_ancestor({b}) = {p:?} expected distance {w:?}")),
             }
+            if !term_to_term {
+                continue;
+            }
             // --- term to term
             let want = r.distance(a, b);
             let got = ta.distance_to_term(&tb);
@@ -65,6 +88,12 @@ fn check_dag_ids(ont: &Ontology, r: &RefOnt, ids: &[u32]) -> V {
             }
             if a != b {
                 let path = ta.path_to_term(&tb).map(|p| p.iter().map(|x| x.as_u32()).collect::<Vec<u32>>());
+                if let Some((_, ep)) = &early {
+                    // several shortest walks may exist: only presence and length must not depend on the order
+                    if ep.as_ref().map(|p| p.len()) != path.as_ref().map(|p| p.len()) {
+                        return v("HpoTerm::path_to_term", "answer depends on which queries were asked before", format!("{a}.path_to_term({b}): asked first {ep:?}, asked after distance_to_term {path:?}"));
+                    }
+                }
                 match (&path, want) {
                     (None, None) => {}
                     (Some(p), Some(d)) => {
@@ -170,7 +199,76 @@ pub fn run(ctx: &mut Ctx) {
             ctx.sample(|| json!({"dag": d.describe(), "ids": &POOL[..n], "ordered_pairs": n * n}));
         }
     }
+    // ---- six terms: all 32 768 DAGs whose links respect the node order, ids ascending and descending with the
+    // depth (the full labelled D(6) is the thorough tier; some algorithmic slips - a search that stops at the
+    // first level where two frontiers meet - need six terms to show)
+    if !ctx.tier.thorough() {
+        let dags = crate::space::topo_dags(6);
+        ctx.space("builder/T6/all-ordered-pairs", &format!("{} DAGs on 6 terms whose links respect the node order x (ids ascending | descending with depth) x 36 ordered pairs", dags.len()));
+        for (di, d) in dags.iter().enumerate() {
+            if !ctx.take() {
+                continue;
+            }
+            ctx.state();
+            if nontrivial(d) {
+                ctx.nontrivial();
+            }
+            let pool: [u32; 6] = if di % 2 == 0 { [1, 7, 118, 4000, 77_777, 9_999_999] } else { [9_999_999, 77_777, 4000, 118, 7, 1] };
+            let f = Facts::from_dag(d, &pool);
+            let r = RefOnt::derive(&f);
+            ctx.transitions(f.n_steps() + 36 * 7);
+            ctx.execs(36);
+            ctx.validateds(36);
+            let Ok(ont) = drive::build(&f, Mode::Minimal) else {
+                ctx.violation("Builder", "[builder] construction fails on valid facts", json!({"case": f.to_json()}));
+                continue;
+            };
+            match guard(|| check_dag(&ont, &r)) {
+                Ok(None) => {}
+                Ok(Some((site, sig, det))) => ctx.violation(&site, &sig, json!({"facts": f.to_json(), "dag": d.describe(), "difference": det, "rust": f.to_rust(false)})),
+                Err(p) => ctx.violation("HpoTerm::path_to_term", "panics", json!({"facts": f.to_json(), "dag": d.describe(), "observed": p})),
+            }
+            ctx.sample(|| json!({"dag": d.describe(), "ids": pool}));
+        }
+    }
     large(ctx);
+    // ---- very deep shapes (beyond 512 / 1000 / 1024 / 2048 levels, 2^14 routes): selected pairs
+    {
+        let family = crate::props::common::very_deep_family();
+        ctx.space("very-deep/selected-pairs", &format!("{} shapes (chains of 1100 and 2100 terms with a shortcut, a ladder of 14 levels) x to-ancestor queries on all ordered pairs of ~25 selected terms (both ends, around 256, 512, 1000, 1024, 2048, the branch points; 6 terms on the longer chain) and term-to-term queries on 3..6 of them (the library's term-to-term distance is cubic on a chain)", family.len()));
+        for (f, what) in &family {
+            if !ctx.take() {
+                continue;
+            }
+            ctx.state();
+            ctx.nontrivial();
+            let r = RefOnt::derive(f);
+            let n = f.terms.len();
+            // the library's distance_to_term costs |common ancestors| x depth per pair: the to-ancestor queries run on
+            // all selected terms, the term-to-term queries on a handful
+            let sel: Vec<u32> = if n > 2000 {
+                [0usize, 5, 2048, 2049, n - 2, n - 1].iter().map(|k| f.terms[*k].id).collect()
+            } else if n > 100 {
+                crate::props::common::very_deep_positions(n).into_iter().map(|k| f.terms[k].id).collect()
+            } else {
+                [0usize, 1, 2, 3, n / 2, n - 3, n - 2, n - 1].iter().map(|k| f.terms[*k].id).collect()
+            };
+            let few: Vec<u32> = if n > 2000 { [5usize, n - 1].iter().map(|k| f.terms[*k].id).collect() } else if n > 100 { [0usize, 5, 513, 1025, n - 2, n - 1].iter().map(|k| f.terms[*k].id).collect() } else { sel.clone() };
+            ctx.transitions(f.n_steps() + (sel.len() * sel.len() * 7) as u64);
+            ctx.execs((sel.len() * sel.len()) as u64);
+            ctx.validateds((sel.len() * sel.len()) as u64);
+            let Ok(ont) = drive::build(f, Mode::Minimal) else {
+                ctx.violation("Builder", "[builder] construction fails on valid facts", json!({"shape": what}));
+                continue;
+            };
+            match guard(|| check_dag_sel(&ont, &r, &sel, false).or_else(|| check_dag_sel(&ont, &r, &few, true))) {
+                Ok(None) => {}
+                Ok(Some((site, sig, det))) => ctx.violation(&site, &format!("[very deep shape] {sig}"), json!({"shape": what, "n_terms": n, "difference": det})),
+                Err(p) => ctx.violation("HpoTerm::path_to_term", "[very deep shape] panics", json!({"shape": what, "observed": p})),
+            }
+            ctx.sample(|| json!({"shape": what, "n_terms": n, "selected_terms": sel.len()}));
+        }
+    }
     // ---- decoded graphs whose terms are flagged obsolete / replaced while still linked: a walk does not look at flags
     for n in 2..=4usize {
         let dags = all_dags(n);
